@@ -93,7 +93,7 @@ def handle : List String → String
           | none => s!"{p.1}=??"))
         let model := s!"U:{sU}|F:{sF}|T:{sT}|N:{sN}|R:{sR}"
         -- property oracle on the model's own output (domain: distinct labels, root creates a file, levels nest)
-        let wf := nodupB (labelsOf t0) && isDoc && monotone t0
+        let wf := nodupB (labelsOf t0) && isDoc && monotone t0 && nests t0
         let links := us.map (·.2) ++ toc ++ nav.filterMap (·.2.1) ++ nav.filterMap (·.2.2) ++ rs.filterMap (fun p => p.2.map (·.1))
         let landAll := links.all (fun u => landsB files (toLink u))
         let uniq := uniqueIdsB files
